@@ -106,15 +106,20 @@ func (br *xmpReader) readAttribute(tag *Tag) (attr Attribute, err error) {
 	attr.parent = tag.self
 
 	// Attribute Name
-	if buf, err = br.Peek(maxTagHeaderSize); err != nil {
-		err = errors.Wrap(err, "Attr")
-		return
-	}
-
 	var d int
-	if attr.self, d, err = parseAttrName(buf); err != nil {
-		err = errors.Wrap(ErrNegativeRead, "Attr (name)")
-		return
+	for s := maxTagHeaderSize; ; s += maxTagHeaderSize {
+		if buf, err = br.Peek(s); err != nil {
+			if s == maxTagHeaderSize {
+				err = errors.Wrap(err, "Attr")
+			} else {
+				err = errors.Wrap(ErrNegativeRead, "Attr (name)")
+			}
+			return
+		}
+		// a long run of white space in front of the name may push it out of the window: look further
+		if attr.self, d, err = parseAttrName(buf); err == nil {
+			break
+		}
 	}
 	if _, err = br.Discard(d); err != nil {
 		err = errors.Wrap(err, "Attr (discard)")
